@@ -53,6 +53,10 @@ type Zlisp struct {
 	// API use, since infix is already default at repl
 	WrapLoadExpressionsInInfix bool
 
+	// recursion depth of Compare and of the comment filter (see maxDataDepth)
+	compareDepth int
+	filterDepth  int
+
 	// sandboxed is set by NewZlispSandbox: later setup calls must not
 	// install anything that reaches the outside world, and the compiler
 	// refuses the include form.
@@ -69,6 +73,11 @@ func (env *Zlisp) SetBooter(b Booter) {
 // Booter provides for registering a callback
 // for any new Go struct created by the ToGoFunction (togo).
 type Booter func(s interface{})
+
+// maxDataDepth bounds the recursion of the routines that walk data
+// structures (compare, type-of, comment filter, code generation, JSON):
+// arrays and hashes are mutable and can be made to contain themselves.
+const maxDataDepth = 10000
 
 const CallStackSize = 25
 const ScopeStackSize = 50
